@@ -2,7 +2,6 @@
 //! can fail reads covering a poisoned offset, and can hold reads at a gate until the script
 //! releases them (imposed completion order).
 use async_trait::async_trait;
-use bytes::Bytes;
 use futures::stream::BoxStream;
 use object_store::memory::InMemory;
 use object_store::path::Path;
@@ -20,22 +19,10 @@ pub struct Gate {
     pub arrivals: Mutex<u64>,
 }
 impl Gate {
-    /// sizes of the reads currently held, sorted
-    pub fn held_sizes(&self) -> Vec<u64> {
-        let mut v: Vec<u64> = self.held.lock().unwrap().iter().map(|h| h.2 - h.1).collect();
-        v.sort();
-        v
-    }
-    /// release one held read of the given size (the oldest such); false if none
-    pub fn release_size(&self, size: u64) -> bool {
+    /// release the held read with this arrival number
+    pub fn release_id(&self, id: u64) -> bool {
         let mut g = self.held.lock().unwrap();
-        let mut best: Option<usize> = None;
-        for (i, h) in g.iter().enumerate() {
-            if h.2 - h.1 == size && best.map(|b| g[b].0 > h.0).unwrap_or(true) {
-                best = Some(i);
-            }
-        }
-        match best {
+        match g.iter().position(|h| h.0 == id) {
             Some(i) => {
                 let h = g.remove(i);
                 let _ = h.3.send(());
@@ -129,9 +116,4 @@ impl ObjectStore for RecStore {
 
 pub fn gen_file(len: u64, a: u64, b: u64) -> Vec<u8> {
     (0..len).map(|i| ((i * a + b) % 256) as u8).collect()
-}
-
-#[allow(dead_code)]
-pub fn to_bytes(v: &[u8]) -> Bytes {
-    Bytes::copy_from_slice(v)
 }
